@@ -126,6 +126,14 @@ func (o *Out) Line(c, impl string) {
 	o.n++
 }
 
+// Flush pushes buffered lines to the file, so that they survive a crash of the process (the
+// virtual-time scenario runners call it after every scenario).
+func (o *Out) Flush() {
+	o.mu.Lock()
+	defer o.mu.Unlock()
+	_ = o.w.Flush()
+}
+
 func (o *Out) Count() int { o.mu.Lock(); defer o.mu.Unlock(); return o.n }
 
 func (o *Out) Close() error {
